@@ -138,11 +138,52 @@ def assigns_to(fn, var):
     return out
 
 
+_FLIP = {"IsNot": "Is", "NotEq": "Eq", "NotIn": "In"}
+_SWAP = {"Gt": "Lt", "GtE": "LtE"}
+_NEG = {"Lt": "GtE", "LtE": "Gt", "Gt": "LtE", "GtE": "Lt"}
+
+
+def canon_cond(cond, polarity):
+    """Canonical (text, polarity) of a condition: negative operators become
+    their positive form with flipped polarity (`a is not b` true == `a is b`
+    false), orderings are written with < / <= (operands swapped, and a false
+    `<` is a true `>=` i.e. a true swapped `<=`), operands of == sorted."""
+    if isinstance(cond, str):
+        try:
+            cond = ast.parse(cond, mode="eval").body
+        except SyntaxError:
+            return cond, polarity
+    if isinstance(cond, ast.UnaryOp) and isinstance(cond.op, ast.Not):
+        return canon_cond(cond.operand, not polarity)
+    if isinstance(cond, ast.Compare) and len(cond.ops) == 1:
+        opn = type(cond.ops[0]).__name__
+        a, b = unparse(cond.left), unparse(cond.comparators[0])
+        if opn in _FLIP:
+            opn = _FLIP[opn]
+            polarity = not polarity
+        if opn in ("Lt", "LtE", "Gt", "GtE"):
+            if not polarity:
+                opn = _NEG[opn]
+                polarity = True
+            if opn in _SWAP:
+                opn = _SWAP[opn]
+                a, b = b, a
+        if opn == "Eq" and b < a:
+            a, b = b, a
+        sym = {"Is": "is", "Eq": "==", "In": "in", "Lt": "<",
+               "LtE": "<="}.get(opn, opn)
+        return "%s %s %s" % (a, sym, b), polarity
+    return unparse(cond), polarity
+
+
 def has_fact(facts, text, polarity):
-    """Is there a dominating fact whose condition unparses to ``text`` with
-    the given truth value?  (``not`` is normalised by the CFG already.)"""
+    """Is there a dominating fact equivalent to ``text`` having the given
+    truth value?  Comparison operators are canonicalised on both sides, so
+    `x is not None` false matches `x is None` true, `a >= b` false matches
+    `a < b` true, `b > a` matches `a < b`."""
+    want = canon_cond(text, polarity)
     for cond, pol, _ in facts:
-        if unparse(cond) == text and pol == polarity:
+        if canon_cond(cond, pol) == want:
             return True
     return False
 
@@ -161,3 +202,50 @@ def class_methods(program, spec):
     if not isinstance(cls, ast.ClassDef):
         raise AnalysisError("anchor vanished: %s is not a class" % spec)
     return [n for n in cls.body if isinstance(n, ast.FunctionDef)]
+
+
+def _as_expression(stmts):
+    """[return e] / [if c: <expr-like> else: <expr-like>] -> expression AST
+    (IfExp for conditionals), or None."""
+    stmts = [s for s in stmts if not (isinstance(s, ast.Expr) and
+                                      isinstance(s.value, ast.Constant))]
+    if len(stmts) == 1 and isinstance(stmts[0], ast.Return) and \
+            stmts[0].value is not None:
+        return stmts[0].value
+    if len(stmts) >= 1 and isinstance(stmts[0], ast.If):
+        a = _as_expression(stmts[0].body)
+        rest = stmts[0].orelse if stmts[0].orelse else stmts[1:]
+        if stmts[0].orelse and len(stmts) > 1:
+            return None
+        b = _as_expression(rest)
+        if a is not None and b is not None:
+            e = ast.IfExp(test=stmts[0].test, body=a, orelse=b)
+            ast.copy_location(e, stmts[0])
+            e._parent = stmts[0]
+            return e
+    return None
+
+
+def inlinable(program, cls_spec):
+    """(inline_props, inline_methods) of a class: properties and
+    zero-argument methods whose body is a single expression (possibly an
+    if/else of expressions) without calls other than min/max/len/int/abs."""
+    props, meths = {}, {}
+    for m in class_methods(program, cls_spec):
+        e = _as_expression(m.body)
+        if e is None:
+            continue
+        if any(isinstance(n, ast.Call) and not (
+                isinstance(n.func, ast.Name) and
+                n.func.id in ("min", "max", "len", "int", "abs"))
+               for n in ast.walk(e)):
+            continue
+        if any(isinstance(n, (ast.Yield, ast.Await, ast.Lambda,
+                              ast.NamedExpr)) for n in ast.walk(e)):
+            continue
+        names = [a.arg for a in m.args.args]
+        if "property" in decorator_names(m) and names == ["self"]:
+            props["self." + m.name] = e
+        elif names == ["self"] and not m.args.vararg and not m.args.kwarg:
+            meths[m.name] = ([], e)
+    return props, meths
